@@ -2,6 +2,7 @@ package mxj
 
 import (
 	"bytes"
+	"encoding/json"
 	"encoding/xml"
 	"io"
 )
@@ -13,6 +14,7 @@ func init() {
 	vHarnesses["H_C15_xml_bytes"] = H_C15_xml_bytes
 	vHarnesses["H_C15_xmlseq_bytes"] = H_C15_xmlseq_bytes
 	vHarnesses["H_C15_json_bytes"] = H_C15_json_bytes
+	vHarnesses["H_C15_json_exact"] = H_C15_json_exact
 	vHarnesses["H_C15_encode_opts"] = H_C15_encode_opts
 }
 
@@ -335,4 +337,32 @@ func H_C15_encode_opts() {
 	SetAttrPrefix("-")
 	vAssert(!panicked, "encode opts: a decoded Map is encoded and queried without a panic under every attribute prefix")
 	vCover("prefixes")
+}
+
+// (d) the JSON reader forms fail exactly when encoding/json rejects the first document:
+// an object whose string value ends in free bytes (backslashes, quotes, braces)
+func H_C15_json_exact() {
+	free := vNondetString(0, 3, "\\\"x}")
+	in := []byte("{\"a\":\"" + free + "\"}" + []string{"", " ", "{\"b\":1}"}[vChoose(3)])
+	var ref map[string]interface{}
+	rerr := json.NewDecoder(bytes.NewReader(in)).Decode(&ref)
+	form := vChoose(2)
+	var m Map
+	var err error
+	panicked := vCatch(func() {
+		if form == 0 {
+			m, err = NewMapJsonReader(vNondetSched(in))
+		} else {
+			m, _, err = NewMapJsonReaderRaw(vNondetSched(in))
+		}
+	})
+	vAssert(!panicked, "json exact: reader forms never panic")
+	if rerr == nil {
+		vAssert(err == nil, "json exact: a first document that encoding/json accepts is accepted by the reader forms")
+		vAssert(vDeepEq(map[string]interface{}(m), ref), "json exact: and decodes to the same Map")
+		vCover("accepted")
+	} else {
+		vAssert(err != nil, "json exact: a first document that encoding/json rejects is rejected")
+		vCover("rejected")
+	}
 }
